@@ -239,3 +239,161 @@ func VerifLemma_C01C_ProtoFileTargetPackage() {
 		}
 	}
 }
+
+// vWalkFile: the fixed tree of VerifLemma_C01C_WalkTargetFiles. Directory names that are string prefixes but not
+// path prefixes of each other ("a" / "ab"), nested directories, a root file.
+func vWalkFile(i int) string {
+	switch i {
+	case 0:
+		return "a/b/x.proto"
+	case 1:
+		return "a/x.proto"
+	case 2:
+		return "ab/x.proto"
+	case 3:
+		return "b/x.proto"
+	}
+	return "x.proto"
+}
+
+const vWalkFiles = 5
+
+// vNondetTargetPath: ".", a symbolic directory path (1..n bytes over {a b /}, normalized) or such a path ++ "/x.proto".
+func vNondetTargetPath(n int) string {
+	kind := verifNondetChoice(3)
+	if kind == 2 {
+		return "."
+	}
+	dir := verifNondetString(n)
+	for i := 0; i < len(dir); i++ {
+		c := dir[i]
+		verifAssume(c == 'a' || c == 'b' || c == '/')
+	}
+	verifAssume(vIsNormalizedRelPath(dir, false))
+	if kind == 1 {
+		return dir + "/x.proto"
+	}
+	return dir
+}
+
+// VerifLemma_C01C_WalkTargetFiles: a real Module (real newModule, real moduleReadBucket) over an in-memory bucket with
+// a fixed tree of five .proto files and a LICENSE; 0..T symbolic --path values (in the order given, so every order
+// of two values occurs) and 0..E symbolic --exclude-path values:
+//   - StatFileInfo(f).IsTargetFile() equals the reference rule (C01-C.target-paths) for every file
+//   - WalkFileInfos over all files yields every file exactly once with the same flag
+//   - WalkFileInfos over only target files (what the compiler is given) yields exactly the files the rule targets,
+//     each once; GetTargetFileInfos lists them sorted by path.
+func VerifLemma_C01C_WalkTargetFiles() {
+	ctx := context.Background()
+	nTargets := verifNondetChoice(verifParam("T") + 1)
+	nExcludes := verifNondetChoice(verifParam("E") + 1)
+	var targets, excludes []string
+	for i := 0; i < nTargets; i++ {
+		targets = append(targets, vNondetTargetPath(verifParam("L")))
+	}
+	for i := 0; i < nExcludes; i++ {
+		excludes = append(excludes, vNondetTargetPath(verifParam("L")))
+	}
+	data := map[string][]byte{"LICENSE": []byte("license")}
+	for i := 0; i < vWalkFiles; i++ {
+		data[vWalkFile(i)] = []byte("syntax = \"proto3\";\n")
+	}
+	bucket, err := storagemem.NewReadBucket(data)
+	verifAssert(err == nil, "memory bucket")
+	module, err := newModule(
+		ctx,
+		func() (storage.ReadBucket, error) { return bucket, nil },
+		"m0", "", nil, uuid.Nil, true, true,
+		func() (ObjectData, error) { return nil, nil },
+		func() (ObjectData, error) { return nil, nil },
+		func() ([]ModuleKey, error) { return nil, nil },
+		targets, excludes, "", false,
+	)
+	verifAssert(err == nil && module != nil, "real module constructed")
+	if err != nil {
+		return
+	}
+	verifCover("module built")
+	want := [vWalkFiles]bool{}
+	nWant := 0
+	for i := 0; i < vWalkFiles; i++ {
+		f := vWalkFile(i)
+		in := len(targets) == 0
+		for _, t := range targets {
+			if vContains(t, f) {
+				in = true
+			}
+		}
+		for _, e := range excludes {
+			if vContains(e, f) {
+				in = false
+			}
+		}
+		want[i] = in
+		if in {
+			nWant++
+		}
+		fileInfo, err := module.StatFileInfo(ctx, f)
+		verifAssert(err == nil && fileInfo != nil, "module file is found")
+		if err != nil {
+			return
+		}
+		verifAssert(fileInfo.IsTargetFile() == want[i], "IsTargetFile equals the reference rule")
+	}
+	if nWant > 0 && nWant < vWalkFiles {
+		verifCover("some but not all files targeted")
+	}
+	// Walk over all files.
+	seenAll := [vWalkFiles]int{}
+	licenseSeen := 0
+	err = module.WalkFileInfos(ctx, func(fileInfo FileInfo) error {
+		if fileInfo.Path() == "LICENSE" {
+			licenseSeen++
+			return nil
+		}
+		for i := 0; i < vWalkFiles; i++ {
+			if fileInfo.Path() == vWalkFile(i) {
+				seenAll[i]++
+				verifAssert(fileInfo.IsTargetFile() == want[i], "full walk reports the same target flag")
+			}
+		}
+		return nil
+	})
+	verifAssert(err == nil, "full walk succeeds")
+	verifAssert(licenseSeen == 1, "full walk yields the license once")
+	for i := 0; i < vWalkFiles; i++ {
+		verifAssert(seenAll[i] == 1, "full walk yields every file exactly once")
+	}
+	// Walk over only the target files.
+	seenTarget := [vWalkFiles]int{}
+	err = module.WalkFileInfos(ctx, func(fileInfo FileInfo) error {
+		verifAssert(fileInfo.IsTargetFile(), "target walk yields only target files")
+		for i := 0; i < vWalkFiles; i++ {
+			if fileInfo.Path() == vWalkFile(i) {
+				seenTarget[i]++
+			}
+		}
+		return nil
+	}, WalkFileInfosWithOnlyTargetFiles())
+	verifAssert(err == nil, "target walk succeeds")
+	for i := 0; i < vWalkFiles; i++ {
+		if want[i] {
+			verifAssert(seenTarget[i] == 1, "target walk yields every targeted file exactly once")
+		} else {
+			verifAssert(seenTarget[i] == 0, "target walk yields no untargeted file")
+		}
+	}
+	targetFileInfos, err := GetTargetFileInfos(ctx, ModuleReadBucketWithOnlyProtoFiles(module))
+	verifAssert(err == nil, "target files are listed")
+	if err != nil {
+		return
+	}
+	verifAssert(len(targetFileInfos) == nWant, "exactly the targeted files are listed")
+	k := 0
+	for i := 0; i < vWalkFiles; i++ {
+		if want[i] && k < len(targetFileInfos) {
+			verifAssert(targetFileInfos[k].Path() == vWalkFile(i), "target files listed sorted by path")
+			k++
+		}
+	}
+}
